@@ -7,7 +7,7 @@ import itertools
 from .. import ir, wrappers as wr, objmodel as om
 from ..core import AnalysisError
 from ..entries import all_entries
-from ..loader import facts, link, unparse
+from ..loader import facts, fn_where, link, unparse
 from ..peval import Inst, Interp, Opaque, PyRaise, World
 from ..ufuncs import dunder_obligations, table_obligations
 from .c03 import self_class_combos
@@ -88,6 +88,7 @@ def run(ctx):
         ctx.ob("C08.lib-meaning", f"SympyLib.{name}", want is not None and text == want,
                f"body `{text}`; expected `{want}`" if want else f"member `{name}` has no frozen SymPy correspondence (body `{text}`): add it after reading",
                None, f"src/vector/_lib.py:{fn.lineno}", sample={"name": name, "body": text})
+    _shim_semantics(ctx, L)
     sf = facts("src/vector/backends/sympy.py", ctx.repo)
     libattr = sf.class_attrs("VectorSympy").get("lib")
     ctx.ob("C08.lib-binding", "VectorSympy.lib", libattr is not None and unparse(libattr) == "SympyLib()", f"lib is {unparse(libattr) if libattr is not None else None}", None, "src/vector/backends/sympy.py")
@@ -193,3 +194,72 @@ def run(ctx):
         ctx.ob("C08.constructors", f"VectorSympy{dim}D(non-sympy value)", ok, msg, None, "src/vector/backends/sympy.py")
     ctx.decline("SymPy's own evaluation/simplification; numerical agreement of expr.subs(values) with the numeric backends")
     ctx.decline("the clamping / NaN-replacement / sign conventions SympyLib documents it cannot express (nan_to_num, maximum/minimum, copysign)")
+
+
+def _shim_semantics(ctx, L):
+    """the documented SympyLib deviations do not change any entry's value on regular operands"""
+    import math
+
+    from .. import denote
+
+    ctx.rule("C08.shim-semantics",
+             "for every dispatch-table entry: evaluating the inlined IR with SympyLib's documented deviations (copysign(a, b) = a, maximum/minimum(a, b) = a "
+             "if a depends on the vector's symbols else b, nan_to_num(a) = a; scalar arguments are plain numbers) gives the same value as the numeric meaning of "
+             "those functions at regular points (forward time-like, off-axis, every sign of x, y, z; scalar arguments of either sign) - i.e. the kernels use "
+             "the functions SymPy cannot express only as clamps / NaN guards / sign conventions that are inactive on the regular domain.  Point semantics of "
+             "the IR, the library is not run; a mismatch is reported with the point")
+    def documented(e, esign):
+        """regular operands whose *result* lies where SymPy documents it cannot follow (sign conventions): reviewed, one line each"""
+        if e.short in ("lorentz.boostX_gamma", "lorentz.boostY_gamma", "lorentz.boostZ_gamma") and esign < 0:
+            return "the direction of a gamma-spelled boost is the sign of gamma (copysign): a sign convention"
+        if e.short == "lorentz.subtract" and all("tau" in ks for ks in e.kinds):
+            return "the difference of two time-like vectors may be space-like; the sign of the resulting tau is a convention"
+        return None
+
+    D = denote.Denoter(L)
+    n = 0
+    pts = [p for p in denote.POINTS if p["T"] > 0 and p["T"] ** 2 > p["X"] ** 2 + p["Y"] ** 2 + p["Z"] ** 2]
+    for e in all_entries(L):
+        n += 1
+        gens = D.operands(e)
+        extras = [ir.param(f"extra{i}") for i in range(e.nextra)]
+        try:
+            outs = D.raw(e, gens, extras)
+        except AnalysisError:
+            raise
+        names = sorted({x.a[0] for o in outs for x in ir.walk(o) if x.kind == "param"})
+        bad = None
+        for j in range(len(pts)):
+            for esign in ((1, -1) if e.nextra else (1,)):
+                if documented(e, esign):
+                    continue
+                env = {}
+                for nm in names:
+                    head = nm.rstrip("0123456789")
+                    idx = nm[len(head):]
+                    if head in ("X", "Y", "Z", "T") and idx:
+                        env[nm] = pts[(j + int(idx)) % len(pts)][head]
+                    elif head == "TAU":
+                        env[nm] = denote.SCALARS[(j + int(idx)) % len(denote.SCALARS)] * 2.0
+                    else:
+                        env[nm] = esign * denote.SCALARS[(j + len(nm)) % len(denote.SCALARS)] * (0.9 if "beta" in e.short else 1.0)
+                m1, m2 = {}, {}
+                for ci, o in enumerate(outs):
+                    try:
+                        a = denote.numeric(o, env, m1)
+                        b = denote.numeric(o, env, m2, sympy_shims=True)
+                    except (ValueError, ZeroDivisionError, OverflowError, TypeError, KeyError):
+                        continue
+                    if isinstance(a, complex) or isinstance(b, complex) or a != a or abs(a) == math.inf:
+                        continue
+                    if b != b or abs(a - b) > 1e-9 * (1 + abs(a) + abs(b)):
+                        bad = {"component": ci, "numeric": a, "with_sympy_shims": b, "point": {k: round(v, 6) for k, v in env.items()}}
+                        break
+                if bad:
+                    break
+            if bad:
+                break
+        ctx.ob("C08.shim-semantics", e.name, bad is None,
+               (f"result component {bad['component']} is {bad['numeric']:.6g} numerically but {bad['with_sympy_shims']:.6g} with SympyLib's copysign/maximum/minimum/nan_to_num "
+                f"at the regular point {bad['point']}") if bad else "", bad, fn_where(e.fn))
+    ctx.anchor("entries evaluated under both lib semantics", n, 2400)
